@@ -346,12 +346,14 @@ impl<D: DataMut> ReaderFrom for VecZnx<D> {
         let len: usize = reader.read_u64::<LittleEndian>()? as usize;
 
         // Validate metadata consistency: n * cols * size * sizeof(i64) must match data length.
-        let expected_len: usize = new_n * new_cols * new_size * size_of::<i64>();
-        if expected_len != len {
+        // The header is untrusted: every product is checked (a wrapped product could equal `len`).
+        let limb_bytes: Option<usize> = new_n.checked_mul(new_cols).and_then(|x| x.checked_mul(size_of::<i64>()));
+        let expected_len: Option<usize> = limb_bytes.and_then(|x| x.checked_mul(new_size));
+        if expected_len != Some(len) {
             return Err(std::io::Error::new(
                 std::io::ErrorKind::InvalidData,
                 format!(
-                    "VecZnx metadata inconsistent: n={new_n} * cols={new_cols} * size={new_size} * 8 = {expected_len} != data len={len}"
+                    "VecZnx metadata inconsistent: n={new_n} * cols={new_cols} * size={new_size} * 8 = {expected_len:?} != data len={len}"
                 ),
             ));
         }
@@ -361,6 +363,18 @@ impl<D: DataMut> ReaderFrom for VecZnx<D> {
             return Err(std::io::Error::new(
                 std::io::ErrorKind::InvalidData,
                 format!("VecZnx buffer too small: self.data.len()={} < read len={len}", buf.len()),
+            ));
+        }
+
+        // `max_size` is the limb capacity of the buffer: it must cover the active limbs and fit this receiver.
+        let max_bytes: Option<usize> = limb_bytes.and_then(|x| x.checked_mul(new_max_size));
+        if new_max_size < new_size || max_bytes.is_none_or(|b| b > buf.len()) {
+            return Err(std::io::Error::new(
+                std::io::ErrorKind::InvalidData,
+                format!(
+                    "VecZnx metadata inconsistent: max_size={new_max_size} must satisfy size={new_size} <= max_size and n*cols*max_size*8 <= self.data.len()={}",
+                    buf.len()
+                ),
             ));
         }
         reader.read_exact(&mut buf[..len])?;
